@@ -174,8 +174,12 @@ CLAIMED = {
              "outside the destination changes, links consistent) evaluated on the implementation's pre/post snapshots. Proved for copy: no panic, well-formedness preservation, and that it only "
              "ever adds (Memfs/CopyFacts.v): whatever it returns, every entry that existed - the source included - is kept under the same path "
              "with the same kind, link target, owner and (without a chmod option) mode, directories list at least what they listed, no file "
-             "loses its content, cwd and root stay. Partial: that the destination receives a copy of every source entry is judged on the bounded "
-             "enumeration, not yet a theorem.",
+             "loses its content, cwd and root stay; copy of a regular file to a fresh path is exact (Memfs/CopyFile.v); copy of a directory tree "
+             "without links to a fresh path in an existing directory, not following links, is proved on the reference tree (Memfs/CopyDir.v): "
+             "every entry at j below the source has a copy at j below the destination with the source's kind, bytes and (requested or own) "
+             "mode, nothing else appears below the destination, everything outside it is as before (hypothesis: the names below the source are "
+             "proper path names, as every key produced by resolve is). Partial: sources containing links, copies into an existing directory and "
+             "copies that follow links are judged on the bounded enumeration, not proved.",
         note="Trusted: Coq kernel; tools/frames.py as the executable statement of the clauses; after a copy that follows links the state is "
              "compared up to HashSet order; extraction, driver, harness, differ.",
         technique="Coq proof (validation completeness and frame) + model-guided BFS judged on pre/post snapshots",
